@@ -59,6 +59,31 @@ def make_heuristic(hs, ref, vstar, view):
             vals = [float(round(v)) for v in vals]
         table = {view.S[i]: vals[i] for i in range(n)}
         return (lambda s: table[s]), vals
+    if hs["kind"] == "tie2":
+        # loose everywhere by the given slacks, and then - for a sub-optimal action a with a sure successor b - h(b) is
+        # raised until a looks exactly as good *under the heuristic* as the best action does (still admissible)
+        vals = [float(v) + x for v, x in zip(vstar, hs["slack"])]
+        done = set()
+        for s in range(n):
+            if ref.absorbing[s]:
+                continue
+            qh = {}
+            for a in range(ref.m):
+                if ref.avail[s, a]:
+                    qh[a] = sum(ref.T[s, a, k] * (ref.R[s, a, k] + ref.gamma * (0.0 if ref.absorbing[k] else vals[k]))
+                                for k in range(n) if ref.W[s, a, k] > 0)
+            best = max(qh.values())
+            for a in qh:
+                succ = [k for k in range(n) if ref.W[s, a, k] > 0]
+                gap = float(vstar[s] - hs["_q"][s, a])
+                if len(succ) == 1 and gap > 1e-9 and not ref.absorbing[succ[0]] and succ[0] != s and succ[0] not in done:
+                    b = succ[0]
+                    hb = (best - ref.R[s, a, b]) / ref.gamma
+                    if hb >= float(vstar[b]):
+                        vals[b] = hb
+                        done.add(b)
+        table = {view.S[i]: vals[i] for i in range(n)}
+        return (lambda s: table[s]), vals
     if hs["kind"] == "const":
         c = max(0.0, float(np.max(vstar))) + hs["const_extra"]
         vals = [c] * n
